@@ -256,7 +256,8 @@ func auditRaw(raw map[string][]byte, vers map[int64]*VerState, checkFields bool)
 }
 
 // auditFast: the persisted fast index holds exactly the latest version's pairs and is labelled with it.
-func auditFast(raw map[string][]byte, vs *VerState, latest int64) error {
+func auditFast(raw map[string][]byte, vers map[int64]*VerState, latest int64) error {
+	vs := vers[latest]
 	want := map[string][]byte{}
 	if vs != nil {
 		want = vs.KV
@@ -286,6 +287,21 @@ func auditFast(raw map[string][]byte, vs *VerState, latest int64) error {
 		}
 		if ver > latest {
 			return fmt.Errorf("fast entry %q version %d > latest %d", k, ver, latest)
+		}
+		// the stamp says "this value is current from version ver on": it must not be older than the version that
+		// wrote the value (versioned lookups between the two would be answered with a value from their future)
+		if vs != nil {
+			if lv := rleafVersion(vs.Root, []byte(k)); lv > 0 && ver < lv {
+				bad := int64(-1)
+				for u := range vers {
+					if u >= ver && u < lv && (bad < 0 || u < bad) {
+						bad = u
+					}
+				}
+				if bad >= 0 {
+					return fmt.Errorf("fast entry %q is stamped with version %d but its value was written in version %d: a versioned lookup at the retained version %d is answered from its future", k, ver, lv, bad)
+				}
+			}
 		}
 		n++
 	}
